@@ -67,7 +67,8 @@ class Shapes(object):
         uid = "%s_%d" % (tag, _N[0])
         names = ["RED", "GREEN", "BLUE", "DARK_GREY", "X1"][:r.randint(2, 5)]
         kind = r.choice(["int", "str"])
-        self.Enum = type("JE" + uid, (SerializableEnum,), {nm: ((i + 1) * 3 if kind == "int" else "v%d" % i) for i, nm in enumerate(names)})
+        # member values include the falsy ones (0, "") - an enum member is a value like any other
+        self.Enum = type("JE" + uid, (SerializableEnum,), {nm: (i * 3 if kind == "int" else ("v%d" % i if i else "")) for i, nm in enumerate(names)})
         self.enum_members = [getattr(self.Enum, nm) for nm in names]
         self.Leaf = type("JL" + uid, (Serializable,), {"__annotations__": {"n": int, "s": str}, "n": 0, "s": ""})
         self.Mid = type("JM" + uid, (Serializable,), {"__annotations__": {"leaf": self.Leaf, "e": self.Enum, "f": float, "flag": bool},
@@ -151,6 +152,35 @@ class Shapes(object):
         if K is str:
             return r.choice(["", "a", "k", "key with space", "é", "1", "-1", "null"])
         return r.choice(self.enum_members)
+
+    def mutate_in_place(self, o):
+        """change a container / nested object of the instance without assigning the field"""
+        r = self.r
+        fields = list(self.fields)
+        r.shuffle(fields)
+        for name, (shape, T) in fields:
+            v = getattr(o, name)
+            if v is None:
+                continue
+            if shape == "list":
+                v.append(self.of(T))
+                return name + ".append"
+            if shape == "set":
+                e = self.of(T)
+                if not (T is float and e != e) and e not in v:
+                    v.add(e)
+                    return name + ".add"
+            if shape == "dict":
+                K, V = T
+                v[self.key(K)] = self.of(V)
+                return name + "[k]=v"
+            if shape == "obj" and T is self.Leaf:
+                v.n = v.n + 1
+                return name + ".n"
+            if shape == "obj" and T is self.Mid:
+                v.leaf.s = v.leaf.s + "!"
+                return name + ".leaf.s"
+        return None
 
     def make(self):
         r = self.r
@@ -242,6 +272,22 @@ def run_shard(cfg):
                     c.inc("roundtrip_loads_dumps")
             except Exception as e:
                 viol("loads-dumps-raised", "loads(dumps(x)) raised %r for %s" % (e, short(x, 40)), {"object": short(x, 100)})
+            # multi-step: the same instance is changed IN PLACE after it was dumped once, then dumped again
+            if i % 4 == 0:
+                changed = sh.mutate_in_place(x)
+                if changed:
+                    c.inc("in_place_mutations")
+                    want2 = jcanon(x)
+                    try:
+                        z2 = sh.Top.loads(x.dumps())
+                        y2 = sh.Top.fromJson(x.toJson())
+                        if jcanon(z2) != want2 or jcanon(y2) != want2:
+                            viol("stale-after-in-place-change", "after changing %s in place, dumps()/toJson() no longer describe the object: %r" % (
+                                changed, field_diff(x, z2) or field_diff(x, y2)), {"object": short(x, 120), "changed": changed})
+                        else:
+                            c.inc("roundtrip_after_in_place_change")
+                    except Exception as e:
+                        viol("loads-dumps-raised", "after an in-place change loads(dumps(x)) raised %r" % (e,), {"object": short(x, 100)})
             if len(samples) < 2 and i == 3:
                 samples.append({"fields": [(n, s, str(T)[:60]) for n, (s, T) in sh.fields], "json": text[:300]})
     return {"evaluations": c.get("objects", 0), "distinct": sorted(distinct), "counters": dict(c), "violations": violations, "samples": samples}
@@ -251,7 +297,8 @@ def finish(tier, seed, results):
     m = merge(results)
     inconclusive = []
     need(m["counters"], ["objects", "json_dumps_ok", "roundtrip_fromJson_toJson", "roundtrip_loads_dumps", "field_shape_basic", "field_shape_obj",
-                         "field_shape_enum", "field_shape_list", "field_shape_set", "field_shape_tuple", "field_shape_dict"], inconclusive)
+                         "field_shape_enum", "field_shape_list", "field_shape_set", "field_shape_tuple", "field_shape_dict",
+                         "in_place_mutations", "roundtrip_after_in_place_change"], inconclusive)
     cov = {
         "evaluations": m["evaluations"],
         "distinct_nontrivial": m["distinct_nontrivial"],
